@@ -23,7 +23,7 @@ RULE = (
 )
 EXHAUSTIVE_PART = "thorough: SSC simfile x {absent, empty, 0.69, 0.7, 0.70, 0.83, 1.0} x SSC chart x 3^11 chart property states (1 240 029 configurations); quick: all single and pairwise property states"
 ASSUMPTIONS = ["decimal.Decimal parses the generated numbers"]
-MONITORS = ["timingdata_source", "displaybpm"]
+MONITORS = ["timingdata_source", "displaybpm", "reading_is_of_one_moment", "copied_chart_emptied"]
 REQUIRED = ["source_chart", "source_simfile", "version_0.7", "version_0.69", "version_absent", "sm_simfile", "sm_chart",
             "chart_offset_absent_simfile_offset_set", "dbpm_static", "dbpm_range", "dbpm_random", "dbpm_malformed",
             "dbpm_fallback_single", "dbpm_fallback_range", "dbpm_fallback_range_equal_values", "ignore_specified",
@@ -293,6 +293,46 @@ def run_one(ctx, case):
             td.delays.insert(0, BeatValue(Beat(1, 48), Decimal("7")))
             td.warps.reverse()
             td.offset = Decimal("99")
+
+    # the chosen source is edited after a TimingData was built from it (bpms and offset both): what the object shows
+    # afterwards is either all of the old reading or all of the new one, never a mixture
+    ctx.mon("reading_is_of_one_moment")
+    td0 = TimingData(sf, chart) if chart is not None else TimingData(sf)
+    old_b, old_o = src.get("BPMS"), src.get("OFFSET")
+    src["BPMS"] = "0.000=777.000"
+    src["OFFSET"] = "55.500"
+    got_b = [(Fraction(e.beat), e.value) for e in td0.bpms]
+    got_o = td0.offset
+    olds = (parse_events(old_b), Decimal(old_o or 0))
+    news = (parse_events("0.000=777.000"), Decimal("55.500"))
+    if (got_b, got_o) not in (olds, news):
+        ctx.violation("timingdata:mixes-readings-of-two-moments-after-its-source-was-edited",
+                      dict(detail, bpms=repr(got_b)[:200], offset=str(got_o), old=repr(olds)[:200], new=repr(news)[:200]))
+    for k, v in (("BPMS", old_b), ("OFFSET", old_o)):
+        if v is None:
+            del src[k]
+        else:
+            src[k] = v
+
+    # a deep copy of the chart, emptied of all its timing properties, is a chart without timing: the simfile is the source
+    if chart is not None and from_chart:
+        import copy as _copy
+
+        ctx.mon("copied_chart_emptied")
+        dup = _copy.deepcopy(chart) if rng.random() < 0.5 else _copy.copy(chart)
+        for key in PROPS:
+            if key in dup:
+                if rng.random() < 0.5:
+                    del dup[key]
+                else:
+                    dup[key] = ""
+        td2 = TimingData(sf, dup)
+        want_b = parse_events(sf.get("BPMS"))
+        got_b = [(Fraction(e.beat), e.value) for e in td2.bpms]
+        want_o = Decimal(sf.get("OFFSET") or 0)
+        if got_b != want_b or td2.offset != want_o:
+            ctx.violation("timingdata:copied-chart-emptied-of-timing-is-still-the-source",
+                          dict(detail, got=repr(got_b)[:200], want=repr(want_b)[:200], offset=str(td2.offset)))
 
     # displayed BPM
     if not parse_events(src.get("BPMS")):
